@@ -21,6 +21,19 @@ let install register get =
     let tree = List.stable_sort (fun (a, _) (b, _) -> compare (List.length a) (List.length b)) tree in
     let p = path_of (get kv "path") in
     let p2 = (try path_of (get kv "path2") with _ -> []) in
+    let kletter = function FsTree.KDir -> "d" | FsTree.KFile -> "f" | FsTree.KLink -> "l" in
+    let look_str (l : FsTree.look) (ok : FsTree.kind -> string) = match l with
+      | FsTree.LKind k -> ok k | FsTree.LNoEnt -> "res=notexist" | FsTree.LNotDir -> "res=other" | FsTree.LUndef -> "skip" in
+    match get kv "op" with
+    | "lstat" -> look_str (FsTree.lstat tree p) (fun k -> "res=ok kind=" ^ kletter k)
+    | "stat" -> look_str (FsTree.stat tree p) (fun k -> "res=ok kind=" ^ kletter k)
+    | "readdir" -> look_str (FsTree.stat tree p) (function
+        | FsTree.KDir ->
+          let ents = List.sort compare (List.map (fun (q, k) ->
+            (match List.rev q with c :: _ -> Hashtbl.find back (int_of_nat c) | [] -> "") ^ ":" ^ kletter k) (FsTree.children tree p)) in
+          "res=ok ents=" ^ (if ents = [] then "-" else String.concat ";" ents)
+        | _ -> "res=other")
+    | _ ->
     let r = match get kv "op", spec with
       | "mkdirall", false -> FsTree.c_mkdirall (S (nat_of_int (List.length p))) tree p
       | "mkdirall", true -> FsTree.spec_mkdirall tree p
